@@ -1180,9 +1180,9 @@ Inductive vpath (self : Z) : pc -> list event -> pc -> Prop :=
 Lemma lat_path_app self p l p' l' p'' : lat_path self p l p' -> lat_path self p' l' p'' -> lat_path self p (l ++ l') p''.
 Proof. induction 1; cbn; [auto|]. intros X. econstructor; eauto. Qed.
 
-Lemma latents_latent self p e : In e (latents self p) -> is_latent e = true.
+Lemma latents_latent self pf p e : In e (latents self pf p) -> is_latent e = true.
 Proof.
-  destruct p; cbn; intros H; repeat (destruct H as [<-|H]; [reflexivity|]); destruct H.
+  destruct pf, p; cbn; intros H; repeat (destruct H as [<-|H]; [reflexivity|]); destruct H.
 Qed.
 Lemma succs_In self p es p' : In p' (succs self p es) <-> exists e, In e es /\ tstep self p e = Some p'.
 Proof.
@@ -1190,7 +1190,7 @@ Proof.
   - intros (e & He & X). exists e. split; [exact He|]. destruct (tstep self p e); [destruct X as [<-|[]]; reflexivity|destruct X].
   - intros (e & He & X). exists e. split; [exact He|]. rewrite X. left. reflexivity.
 Qed.
-Lemma closure_sound self n : forall ps p, In p (closure self n ps) -> exists p0 l, In p0 ps /\ lat_path self p0 l p.
+Lemma closure_sound self pf n : forall ps p, In p (closure self pf n ps) -> exists p0 l, In p0 ps /\ lat_path self p0 l p.
 Proof.
   induction n as [|n IH]; cbn; intros ps p H.
   - exists p, []. split; [exact H|constructor].
@@ -1199,33 +1199,33 @@ Proof.
     apply succs_In in H1 as (e & He & Ht). exists p0, (e :: l). split; [exact H0|].
     econstructor; eauto. eapply latents_latent; eauto.
 Qed.
-Lemma vstep_sound self ps e p' : In p' (vstep self ps e) ->
+Lemma vstep_sound self pf ps e p' : In p' (vstep self pf ps e) ->
   exists p0 l p1, In p0 ps /\ lat_path self p0 l p1 /\ tstep self p1 e = Some p'.
 Proof.
   unfold vstep. intros H. apply in_flat_map in H as (p1 & H1 & H2).
-  apply succs_In in H2 as (e' & [<-|[]] & Ht). destruct (closure_sound _ _ _ _ H1) as (p0 & l & H0 & L).
+  apply succs_In in H2 as (e' & [<-|[]] & Ht). destruct (closure_sound _ _ _ _ _ H1) as (p0 & l & H0 & L).
   exists p0, l, p1. auto.
 Qed.
-Lemma vrun_sound self tr : forall ps i ps', 0 <= i -> vrun self ps tr i = (ps', -1) ->
+Lemma vrun_sound self pf tr : forall ps i ps', 0 <= i -> vrun self pf ps tr i = (ps', -1) ->
   forall p', In p' ps' -> exists p0, In p0 ps /\ vpath self p0 tr p'.
 Proof.
   induction tr as [|e tr IH]; cbn [vrun]; intros ps i ps' Hi H p' Hp'.
   - injection H as <-. exists p'. split; [exact Hp'|constructor].
-  - destruct (vstep self ps e) as [|q qs] eqn:E; [inversion H; lia|].
+  - destruct (vstep self pf ps e) as [|q qs] eqn:E; [inversion H; lia|].
     assert (Hi' : 0 <= i + 1) by lia.
     destruct (IH (q :: qs) (i + 1) ps' Hi' H p' Hp') as (p2 & H2 & V).
-    rewrite <- E in H2. destruct (vstep_sound _ _ _ _ H2) as (p0 & l & p1 & H0 & L & Ht).
+    rewrite <- E in H2. destruct (vstep_sound _ _ _ _ _ H2) as (p0 & l & p1 & H0 & L & Ht).
     exists p0. split; [exact H0|]. econstructor; eauto.
 Qed.
 (* an accepted trace is a run of the thread automaton from PIdle back to PIdle, for some values of the latent events *)
-Lemma conform_sound self tr : conform self tr = (-1, 1) ->
+Lemma conform_sound self pf tr : conform self pf tr = (-1, 1) ->
   exists p l, vpath self PIdle tr p /\ lat_path self p l PIdle.
 Proof.
-  unfold conform. destruct (vrun self [PIdle] tr 0) as [ps i] eqn:E. intros H.
+  unfold conform. destruct (vrun self pf [PIdle] tr 0) as [ps i] eqn:E. intros H.
   pose proof (f_equal fst H) as H1. pose proof (f_equal snd H) as H2. cbn [fst snd] in H1, H2. subst i.
-  destruct (existsb pc_idle (closure self LAT_DEPTH ps)) eqn:X; [|discriminate H2].
+  destruct (existsb pc_idle (closure self pf LAT_DEPTH ps)) eqn:X; [|discriminate H2].
   apply existsb_exists in X as (q & Hq & Iq). destruct q; try discriminate.
-  destruct (closure_sound _ _ _ _ Hq) as (p & l & Hp & L).
-  destruct (vrun_sound self tr [PIdle] 0 ps (Z.le_refl 0) E p Hp) as (p0 & [<-|[]] & V).
+  destruct (closure_sound _ _ _ _ _ Hq) as (p & l & Hp & L).
+  destruct (vrun_sound self pf tr [PIdle] 0 ps (Z.le_refl 0) E p Hp) as (p0 & [<-|[]] & V).
   exists p, l. auto.
 Qed.
